@@ -123,6 +123,8 @@ def run_case(case):
     tr = SC.traced_run(model, time_arg(sim), exact, sim["np_seed"], iterations=2, max_steps=case.get("max_steps", SC.MAX_STEPS))
     modek = "exact" if exact else "tau"
     empty = [len(j["T"]) == 1 for j in tr.jumps]
+    if tr.error is not None and SC.unbounded_adaptive_tau(tr, sim):
+        return {"nontrivial": False, "mismatches": mism, "violations": viol, "tags": tags + ["raised:unbounded-adaptive-tau(C04 finding)"]}
     if tr.error is not None:
         kind = "empty_path" if any(empty) else "nonempty_path"
         viol.append({"what": "solve_stochast(grid) raised %s: %s" % (type(tr.error).__name__, str(tr.error)[:200]),
